@@ -59,6 +59,8 @@ type reqSpec struct {
 	body    string
 	ctxVal  string
 	status  int // 0: the handler sets none
+	early   int // > 0: an informational 1xx header sent before the final status
+	panics  bool // the handler panics with http.ErrAbortHandler after replying
 	reply   string
 	wrapped int // which of the Wrap results serves it
 	req     *http.Request
@@ -229,6 +231,10 @@ func (w *world) innerHandler(rw http.ResponseWriter, r *http.Request) {
 	if !check("body", string(body), sp.body) || !observe() {
 		return
 	}
+	if sp.early != 0 {
+		rw.WriteHeader(sp.early)
+		k.Yield("handler.early")
+	}
 	if sp.status != 0 {
 		rw.WriteHeader(sp.status)
 		k.Yield("handler.3")
@@ -240,6 +246,40 @@ func (w *world) innerHandler(rw http.ResponseWriter, r *http.Request) {
 		return
 	}
 	k.Yield("handler.5")
+	if sp.panics {
+		// What net/http documents for aborting a response.
+		panic(http.ErrAbortHandler)
+	}
+}
+
+// clientRW is the client's end of one request: a ResponseWriter with
+// net/http's semantics for status codes (informational 1xx headers do not
+// end the header phase; the first final status wins; Write implies 200).
+type clientRW struct {
+	hdr   http.Header
+	body  []byte
+	infos []int
+	code  int
+}
+
+func (c *clientRW) Header() http.Header { return c.hdr }
+
+func (c *clientRW) WriteHeader(code int) {
+	switch {
+	case code >= 100 && code < 200:
+		c.infos = append(c.infos, code)
+	case c.code == 0:
+		c.code = code
+	}
+}
+
+func (c *clientRW) Write(b []byte) (int, error) {
+	if c.code == 0 {
+		c.code = http.StatusOK
+	}
+	c.body = append(c.body, b...)
+
+	return len(b), nil
 }
 
 func run(rc *kernel.RunCtx) {
@@ -316,6 +356,21 @@ func run(rc *kernel.RunCtx) {
 			}
 			if tp.Bool(2, 3) {
 				sp.status = []int{200, 201, 204, 400, 404, 500, 503}[tp.Choose(7)]
+				if tp.Bool(1, 6) {
+					sp.early = []int{100, 102, 103}[tp.Choose(3)]
+				}
+			}
+			sp.panics = tp.Bool(1, 10)
+			// Twins: a request that has method, host and request URI (and
+			// sometimes the remote address) in common with an earlier one but
+			// its own headers, body, context value, status and reply.
+			if len(w.specs) > 0 && tp.Bool(1, 3) {
+				e := w.specs[tp.Choose(len(w.specs))]
+				sp.method, sp.host, sp.uri = e.method, e.host, e.uri
+				if tp.Bool(1, 2) {
+					sp.raddr = e.raddr
+				}
+				rc.Stats.Probe("twin-request")
 			}
 			// Requests made in-process need not have every field set.
 			if tp.Bool(1, 6) {
@@ -345,8 +400,9 @@ func run(rc *kernel.RunCtx) {
 		" logmw at ", kernel.Itoa(pos), " wraps=", kernel.Itoa(nWrap), " retain=", btoa(w.keep), " log=", btoa(logEnabled))
 
 	type result struct {
-		code int
-		body string
+		code  int
+		body  string
+		early int
 	}
 	results := map[int]result{}
 
@@ -356,14 +412,17 @@ func run(rc *kernel.RunCtx) {
 			for _, sp := range plans[ti] {
 				sp := sp
 				k.Ask("request.begin", func() any { w.cur[ti] = sp.id; return nil })
-				rec := httptest.NewRecorder()
+				rec := &clientRW{hdr: http.Header{}}
 				pv, stack := serve(wrapped[sp.wrapped], rec, sp.req)
-				if pv != nil {
+				if pv != nil && !(sp.panics && pv == http.ErrAbortHandler) {
 					k.Report("panic", kernel.PanicSite(stack), fmt.Sprintf("ServeHTTP panicked: %v\n%s", pv, stack))
 
 					return
 				}
-				res := result{code: rec.Code, body: rec.Body.String()}
+				res := result{code: rec.code, body: string(rec.body), early: len(rec.infos)}
+				if rec.code == 0 {
+					res.code = http.StatusOK // what the server sends when the handler set nothing
+				}
 				k.Tell("request.end", func() {
 					w.cur[ti] = -1
 					results[sp.id] = res
@@ -408,7 +467,11 @@ func run(rc *kernel.RunCtx) {
 		if wantCode == 0 {
 			wantCode = http.StatusOK
 		}
-		if res.code != wantCode || res.body != sp.reply {
+		wantEarly := 0
+		if sp.early != 0 {
+			wantEarly = 1
+		}
+		if res.code != wantCode || res.body != sp.reply || res.early != wantEarly {
 			rc.Fail("response", "LogMiddleware.Wrap", fmt.Sprintf(
 				"client of request %d received code=%d body=%q, the handler wrote code=%d body=%q", sp.id, res.code, res.body, wantCode, sp.reply))
 
@@ -417,6 +480,11 @@ func run(rc *kernel.RunCtx) {
 		var msgs []string
 		for _, l := range w.logs[sp.id] {
 			msgs = append(msgs, l.msg)
+			if l.msg == "finished" && sp.panics {
+				// A handler that panics does not reach SetImplicitSuccess;
+				// the statement covers invocations that return.
+				continue
+			}
 			if l.msg == "finished" && (!l.has || l.code != wantCode) {
 				rc.Fail("finished-code", "LogMiddleware.Wrap", fmt.Sprintf(
 					"the \"finished\" record of request %d reports code=%d (present=%v), the handler set %d", sp.id, l.code, l.has, wantCode))
